@@ -814,7 +814,9 @@ func (d *badgerNodeDB) Prune(version uint64) error {
 		if innerErr != nil {
 			return innerErr
 		}
-		if err != nil {
+		// A missing root node key means that an earlier, interrupted prune of this version has
+		// already removed this root and its nodes; carry on so that the prune can complete.
+		if err != nil && !errors.Is(err, api.ErrRootNotFound) {
 			return err
 		}
 
